@@ -1040,6 +1040,9 @@ pub struct GenFn {
     pub start: u32,
     pub end: u32,
     pub nblocks: u32,
+    /// how the blocks are announced: one BLOCKS record per entry (the compilers write exactly one
+    /// record; `read_blocks` restarts `GcovBlock.no` at 0 in every record)
+    pub block_split: Vec<u32>,
     /// arcs in file order, grouped by source block (ascending): (src, dst, flags)
     pub arcs: Vec<(u32, u32, u32)>,
     pub lines: Vec<(u32, Vec<LineItem>)>,
@@ -1060,8 +1063,10 @@ impl GenFn {
                 start: self.start,
                 end: self.end,
             },
-            NRec::Blocks(self.nblocks),
         ];
+        for k in &self.block_split {
+            v.push(NRec::Blocks(*k));
+        }
         let mut i = 0;
         while i < self.arcs.len() {
             let src = self.arcs[i].0;
@@ -1076,6 +1081,25 @@ impl GenFn {
             v.push(NRec::Lines(*b, items.clone()));
         }
         v
+    }
+    /// move the ARCS record of block 0 behind the next ARCS record: arc 0 is then no longer the
+    /// entry arc (no compiler writes this; `add_line_count` looks at `edges.first()`)
+    pub fn move_entry_arcs_back(&mut self) -> bool {
+        let n0 = self.arcs.iter().take_while(|a| a.0 == 0).count();
+        if n0 == 0 || n0 == self.arcs.len() {
+            return false;
+        }
+        let next_src = self.arcs[n0].0;
+        let n1 = self.arcs[n0..].iter().take_while(|a| a.0 == next_src).count();
+        let head: Vec<(u32, u32, u32)> = self.arcs.drain(..n0).collect();
+        for (k, a) in head.into_iter().enumerate() {
+            self.arcs.insert(n1 + k, a);
+        }
+        true
+    }
+    /// arc 0 leaves block 0 and is block 0's only outgoing arc
+    pub fn entry_first(&self) -> bool {
+        !self.arcs.is_empty() && self.arcs[0].0 == 0 && self.arcs.iter().filter(|a| a.0 == 0).count() == 1
     }
     pub fn real_arcs(&self) -> Vec<usize> {
         (0..self.arcs.len()).filter(|&i| self.arcs[i].2 & 1 == 0).collect()
@@ -1204,6 +1228,7 @@ pub fn gen_fn(rng: &mut Rng, version: u32, idx: u32, small: bool) -> GenFn {
         start,
         end,
         nblocks,
+        block_split: vec![nblocks],
         arcs,
         lines,
         tree_ok,
@@ -1318,6 +1343,7 @@ pub fn gen_loop_fn(rng: &mut Rng, idx: u32, nlines: u32, file: &[u8]) -> GenFn {
         start,
         end: start + 9,
         nblocks,
+        block_split: vec![nblocks],
         arcs,
         lines,
         tree_ok: true,
